@@ -567,6 +567,7 @@ package app
 //@   loop 3 invariant quiet: tick == old(tick)
 //@   ensures C04.changes_pure [C04]: tick == old(tick)
 //@   ensures C04.changes_err [C04]: err != nil ==> becomeActive == nil && becomeInactive == nil && becomeDataLag == nil
+//@   ensures C04.changes_disjoint [C04]: err == nil ==> (forall x string :: contains(becomeActive, x) ==> !contains(becomeInactive, x) && !contains(becomeDataLag, x))
 //@   ensures C04.changes_nomaster [C04]: !contains(becomeActive, master) && !contains(becomeInactive, master) && !contains(becomeDataLag, master)
 
 //@ define cfgW(app *App) = swHelper(app).rplSemiSyncMasterWaitForSlaveCount
